@@ -283,7 +283,9 @@ func (s *Spec) HasMultiKey() bool {
 var boundaryLens = []int{0, 1, 22, 23, 24, 25, 254, 255, 256, 257, 65534, 65535, 65536, 65537}
 
 func bodyLen(t *rapid.T, label string) int {
-	switch rapid.IntRange(0, 5).Draw(t, label+"-kind") {
+	switch rapid.IntRange(0, 6).Draw(t, label+"-kind") {
+	case 6:
+		return gen.ImplLen(t, label+"-impl", 4097)
 	case 0, 1:
 		return rapid.SampledFrom(boundaryLens).Draw(t, label)
 	case 2:
